@@ -56,6 +56,12 @@ CLAIMED["C18"] = ("Shard",
     "Exhaustive model checking of the keyed-shard life cycle plus conformance: every exported shard must hold exactly the independently computed keyed form of every chunk hash (no raw hash under a non-zero key), unchanged xorb and file hashes, file records kept or dropped and optional tables present exactly as requested; manager answers for unkeyed queries equal the original's; loaded iff now <= expiry, deleted iff expiry + grace <= now.",
     _SH_NOTE + " Equality of manager answers is checked on collision-free prefixes (see evidence assumptions).", "5.4, 6 C18")
 
+CLAIMED["C19"] = ("AtomicFs",
+    "TLC model checking of AtomicFs.tla (temp + rename protocols of shard flush, consolidation, LocalClient put and cache put with Crash / Recover at every step; negative controls delete_before_write and write_final); directory snapshots taken by crash-point hooks between the real file-system effects (plus synthesized partial temp files) re-opened by the real components and validated by Trace_AtomicFs.tla",
+    "Exhaustive model checking of the four write protocols with a crash after every effect, plus crash-point enumeration on the code: at every crash point of every run the copied directory must be exactly the file system the model predicts for that point, every final-named file must be complete and consistent with its name according to the component's own validator, the real re-open must succeed, everything retrievable before the operation must still be retrievable (cache: except subsumed / evicted items, and never wrong bytes), and temp files must be ignored or cleaned.",
+    "process-crash model (completed system calls persist); a crash inside the write of the temporary file is emulated by truncating it to prefix lengths.",
+    "5.8, 6 C19")
+
 PENDING_REASON = "check not built yet in this round (planned in DESIGN.md section 6); no claim is made"
 
 checks = []
